@@ -32,7 +32,7 @@ add("C08", "runtime differential monitor: PRNG-chosen API-composition decoders (
 add("C09", "callback event log + error identity: a probe handler fails at call k with a unique sentinel error and a hostile accompanying offset; returned error (fresh sentinels, the library's own error values, a typed nil, standard-library and wrapped errors) compared by identity, calls counted; handlers that re-enter with the traversal's Buffer",
     "Exploration: every failing position for <= 8 callbacks x 11 accompanying offsets incl. MaxInt/MinInt, both traversals, members of every kind.", TB, "§5 C09")
 add("C10", "crash/panic/hang monitor: every exported function and hostile handler programs run on hostile inputs held in PROT_READ guard pages, one worker process per shard with last-case attribution and a stall watchdog; returned offsets range-checked",
-    "Exploration: 52 call forms x raw bytes, byte sweep, generated/faulty documents, nestings to 1,048,576 levels, megabyte tokens; handler offsets negative/beyond end/near MaxInt/MinInt/off-by-one/mid-token.", TB + " Go's bounds/nil checks are the memory-safety sanitizer; the library imports neither unsafe nor cgo.", "§5 C10")
+    "Exploration: 45 call forms x raw bytes, byte sweep, generated/faulty documents, nestings to 1,048,576 levels, megabyte tokens; handler offsets negative/beyond end/near MaxInt/MinInt/off-by-one/mid-token.", TB + " Go's bounds/nil checks are the memory-safety sanitizer; the library imports neither unsafe nor cgo.", "§5 C10")
 add("C11", "runtime differential monitor: SkipValueFast observed beside SkipValue on every input where the real SkipValue succeeds (with any of four Buffer states; the long-lived Buffer is shared by both skippers); concurrent callers compared with the same call alone",
     "Exploration over the C02 inputs; precondition taken from the real SkipValue so the check is independent of C02's model.", TB, "§5 C11")
 add("C12", "runtime monitor of (offset, error, target before/after) for all nine Decode* functions with two sentinel targets, expected outcome derived from the corresponding Read* and a null-prefix test; targets correlated with the input, cap==len and baited copies, an aliasing history for DecodeString, a 128 KiB scratch; the same again on a GOARCH=386 build",
@@ -51,7 +51,7 @@ add("C18", "Go race detector (-race build) over 32 goroutines x seeded whole-API
     "Exploration: 3 (quick) / 10 (thorough) processes, 2 passes each; reports the distinct co-active function pairs observed.", TB + " The race detector sees only accesses that happen in the run.", "§5 C18")
 add("C19", "allocation monitor: runtime.MemStats.Mallocs around 20 calls, three times, GC off, GOMAXPROCS=1, for every listed function on successful inputs of every conversion path with constructed preconditions (exact destination capacities, in-place unescaping, inputs in the caller's stack frame, handlers sharing the traversal's Buffer); plus measured calls after disturbances of the warmed Buffer",
     "Exploration over ~40,000 (quick) inputs; violation iff every call allocates in all three runs.", TB, "§5 C19")
-add("C20", "allocation monitor: runtime.MemStats.TotalAlloc over scaling series (n, 2n, 4n) of ~80 adversarial document families x 9 entry points and over big-then-many-small call histories on reused readers/buffers",
+add("C20", "allocation monitor: runtime.MemStats.TotalAlloc over scaling series (n, 2n, 4n) of ~70 adversarial document families x 9 entry points and over big-then-many-small call histories on reused readers/buffers",
     "Exploration with explicit thresholds for 'linear' recorded in the evidence.", TB + " Thresholds are judgement calls stated in DESIGN.md §5 C20.", "§5 C20")
 
 def main():
